@@ -341,9 +341,11 @@ func (w *World) fnCallRep(c ugo.Call) (ugo.Object, error) {
 	n, _ := c.Get(1).(ugo.Int)
 	k := w.calls
 	w.calls++
-	pooled := false
+	pooled, reacquire := false, false
 	if k < len(w.Spec.Pooled) {
 		pooled = w.Spec.Pooled[k]
+		// the same handle taken from and given back to the pool around every invocation
+		reacquire = pooled && w.Spec.Repeat[k] > 0
 	}
 	args := w.argBuffer()
 	defer w.argRelease()
@@ -351,13 +353,19 @@ func (w *World) fnCallRep(c ugo.Call) (ugo.Object, error) {
 		args = append(args, c.Get(i))
 	}
 	inv := ugo.NewInvoker(c.VM(), c.Get(0))
-	if pooled {
+	if pooled && !reacquire {
 		inv.Acquire()
 		defer inv.Release()
 	}
 	var ret ugo.Object = ugo.Undefined
 	for i := 0; i < int(n); i++ {
+		if reacquire {
+			inv.Acquire()
+		}
 		r, err := inv.Invoke(args...)
+		if reacquire {
+			inv.Release()
+		}
 		if err != nil {
 			w.CallErrs = append(w.CallErrs, CanonErr(err))
 			return nil, err
